@@ -120,6 +120,12 @@ Print Assumptions C15_window_invariant.
 Check (C15_window_count_counts_all : forall (O : FloatOps) ops r,
   r_count O (rfinal O r ops) = r_count O r + adds O ops).
 Print Assumptions C15_window_count_counts_all.
+Check (C15_summary_sum_covers_all : forall (O : FloatOps) ops r,
+  r_sum O (rfinal O r ops) = fold_left (fadd O) (add_values O ops) (r_sum O r)).
+Print Assumptions C15_summary_sum_covers_all.
+Check (C15_summary_snapshot_reports_lifetime_count_and_sum : forall (O : FloatOps) (r : rsum O) t,
+  exists sc mn mx qs, rstep O r (RSnap O t) = (r, OSnap O (r_count O r) (r_sum O r) sc mn mx qs)).
+Print Assumptions C15_summary_snapshot_reports_lifetime_count_and_sum.
 Check (C15_window_snapshot_merges_unexpired : forall (O : FloatOps) (r : rsum O) now v,
   In v (rs_snapshot O r now) <->
   exists b, In b (r_buckets O r) /\ In v (rb_vals O b) /\
